@@ -1,1 +1,92 @@
 // verif hook module for src/symbol_slab.rs (compiled only with --cfg cberner_raptorq_verif)
+#![allow(dead_code, unused_imports)]
+use super::*;
+
+#[cfg(kani)]
+pub(crate) mod kani_slab {
+    use super::super::*;
+    use crate::octet::OCTET_MUL;
+    use crate::octets::verif_hooks::kani_kern::*;
+    use std::arch::x86_64::*;
+
+    const COUNT: usize = 3;
+
+    // K-SLABMEM (bounded: 3 symbols, one concrete symbol size per call): the real SymbolSlab operations, through the real
+    // paired borrow (raw pointers) and the real kernels under an arbitrary CPUID, against the element-wise contract that
+    // V-SLAB assumes for them; every other byte of the slab unchanged; with and without a reorder mapping.
+    fn check_ops(ss: usize, with_mapping: bool, which: u8) {
+        let bytes: [u8; 48] = kani::any();
+        let n = COUNT * ss;
+        let mapping = if with_mapping { Some(vec![2usize, 0, 1]) } else { None };
+        let mut slab = SymbolSlab { data: bytes[..n].to_vec(), count: COUNT, symbol_size: ss, mapping };
+        let dest: usize = kani::any();
+        let src: usize = kani::any();
+        kani::assume(dest < COUNT && src < COUNT && dest != src);
+        let c: u8 = 0x53;
+        let before: [u8; 48] = bytes;
+        let phys = |i: usize| if with_mapping { [2usize, 0, 1][i] } else { i };
+        match which {
+            0 => slab.add_assign(dest, src),
+            1 => slab.mulassign_scalar(dest, &Octet::new(c)),
+            _ => slab.fma(dest, src, &Octet::new(c)),
+        }
+        let k: usize = kani::any();
+        kani::assume(k < n);
+        let sym = k / ss;
+        let off = k % ss;
+        let got = slab.data[k];
+        if sym == phys(dest) {
+            let d0 = before[k];
+            let s0 = before[phys(src) * ss + off];
+            let want = match which {
+                0 => d0 ^ s0,
+                1 => OCTET_MUL[c as usize][d0 as usize],
+                _ => d0 ^ OCTET_MUL[c as usize][s0 as usize],
+            };
+            assert!(got == want, "C09/C12 slab op == element-wise field operation on the destination symbol");
+        } else {
+            assert!(got == before[k], "C09/C12 slab op leaves every other symbol unchanged");
+        }
+        assert!(slab.data.len() == n, "C12 slab storage size unchanged");
+    }
+
+    // CPU identification fixed to "no vector extension": the portable kernels are selected (every kernel and every dispatcher is
+    // checked on its own in K-KERN); this unit is about the slab's own address arithmetic and borrows
+    pub(crate) fn m_cpuid_none(_leaf: u32, _sub: u32) -> CpuidResult {
+        CpuidResult { eax: 0, ebx: 0, ecx: 0, edx: 0 }
+    }
+    macro_rules! slab_h {
+        ($name:ident, $which:expr, $m:expr, $step:expr) => {
+            #[kani::proof]
+            #[kani::unwind(20)]
+            #[kani::stub(std::arch::x86_64::__cpuid_count, m_cpuid_none)]
+            #[kani::stub(std::arch::x86_64::_xgetbv, m_xgetbv)]
+            pub(crate) fn $name() {
+                let mut ss = 1;
+                while ss <= 16 {
+                    check_ops(ss, $m, $which);
+                    ss += $step;
+                }
+            }
+        };
+    }
+    slab_h!(slab_add_assign, 0, false, 1);
+    slab_h!(slab_mulassign, 1, false, 7);
+    slab_h!(slab_fma, 2, false, 7);
+    slab_h!(slab_add_assign_mapped, 0, true, 1);
+    slab_h!(slab_mulassign_mapped, 1, true, 7);
+    slab_h!(slab_fma_mapped, 2, true, 7);
+
+    // get_pair_mut refuses dest == src and out-of-range indices
+    #[kani::proof]
+    #[kani::unwind(20)]
+    pub(crate) fn slab_pair_refuses_bad_indices() {
+        let mut slab = SymbolSlab::with_zeros(3, 4);
+        let dest: usize = kani::any();
+        let src: usize = kani::any();
+        kani::assume(dest == src || dest >= 3 || src >= 3);
+        kani::assume(dest < 8 && src < 8);
+        let _ = slab.get_pair_mut(dest, src);
+        assert!(false, "MARKER C12 get_pair_mut accepted equal or out-of-range indices");
+    }
+}
